@@ -1077,6 +1077,8 @@ def _read_hex_byte(ctx: ReaderContext) -> bytes:
     reader = ctx.reader
     c1 = reader.next_char()
     c2 = reader.next_char()
+    if c1 == "" or c2 == "":
+        raise ctx.eof_error("Unexpected EOF in byte string escape sequence")
     try:
         return bytes([int(f"0x{c1}{c2}", base=16)])
     except ValueError as e:
